@@ -391,6 +391,37 @@ func c01R3(ic *IC, r *Report) {
 		insts = append(insts, inst{f, as, enclosingPath(cfgFn.Decl.Body, as)})
 		return true
 	})
+	// installations made by a plain helper of cfg count at each place cfg calls the helper
+	for _, hname := range sortedKeys(ic.F) {
+		h := ic.F[hname]
+		if h == cfgFn || h.Decl.Body == nil || h.Obj == nil || h.Decl.Recv != nil {
+			continue
+		}
+		var found []*ast.AssignStmt
+		ast.Inspect(h.Decl.Body, func(n ast.Node) bool {
+			as, ok := n.(*ast.AssignStmt)
+			if !ok || len(as.Lhs) != 1 || len(as.Rhs) != 1 || selField(ic.Info, as.Lhs[0]) != genFld {
+				return true
+			}
+			if id, ok := unparen(as.Rhs[0]).(*ast.Ident); ok {
+				if f, ok := ic.Info.Uses[id].(*types.Func); ok && strings.HasPrefix(f.Name(), "loopVar") {
+					found = append(found, as)
+				}
+			}
+			return true
+		})
+		if len(found) == 0 {
+			continue
+		}
+		for _, c := range allCalls(cfgFn.Decl.Body) {
+			if f, ok := calleeOf(ic.Info, c).(*types.Func); ok && f == h.Obj {
+				for _, as := range found {
+					g := ic.Info.Uses[unparen(as.Rhs[0]).(*ast.Ident)].(*types.Func)
+					insts = append(insts, inst{g, as, enclosingPath(cfgFn.Decl.Body, c)})
+				}
+			}
+		}
+	}
 	// the copy-back class: a generator that allocates nothing and sets one frame slot from
 	// another (the loop variable takes the value of the body's copy before the post statement)
 	isBack := func(f *types.Func) bool {
@@ -409,8 +440,7 @@ func c01R3(ic *IC, r *Report) {
 					return false
 				}
 				v := selField(ic.Info, ix.X)
-				iv := selField(ic.Info, ix.Index)
-				return v != nil && v.Name() == "data" && iv != nil && iv.Name() == "findex"
+				return v != nil && v.Name() == "data"
 			}
 			if se, ok := unparen(c.Fun).(*ast.SelectorExpr); ok && len(c.Args) == 1 && slot(se.X) && slot(c.Args[0]) {
 				found = true
@@ -439,14 +469,39 @@ func c01R3(ic *IC, r *Report) {
 	// the body's copy must flow back before it. The copy-back is installed in a case of the
 	// for statement with init, condition and post, on a node both the end of the body and a
 	// continue statement reach.
-	{
+	// every variable defined by the init clause gets its copy: the generator making the copy for
+	// a 3-clause for statement (the non-range one) is installed inside a loop over the variables
+	// of the init clause, not for its first variable only
+	for _, in := range insts {
+		if isBack(in.gen) {
+			continue
+		}
+		underRange := false
+		inLoop := false
+		for _, p := range in.path {
+			switch x := p.(type) {
+			case *ast.IfStmt:
+				if strings.Contains(types.ExprString(x.Cond), "rangeStmt") {
+					underRange = true
+				}
+			case *ast.RangeStmt, *ast.ForStmt:
+				inLoop = true
+			}
+		}
+		if underRange || !strings.Contains(strings.ToLower(in.gen.Name()), "for") {
+			continue
+		}
+		r.Check(inLoop, "R01.3", "cfg/for-init/every-variable-gets-a-copy", ic.pos(in.as.Pos()), "the per-iteration copy is installed for each variable of the init clause",
+			"cfg installs the per-iteration copy of a 3-clause for statement for one variable of the init clause only (the installation of "+in.gen.Name()+" is not inside a loop over the variables the init clause defines): in for i, j := 0, 10; i < 3; i, j = i+1, j+1 { fs = append(fs, func() int { return i*100 + j }) } the closures share one j (13 113 213 instead of 10 111 212)")
+	}
+	for _, kind := range sortedKeys(forKindsWithInit(ic)) {
 		okBack := false
 		where := ""
 		for _, b := range backs {
 			for _, p := range b.path {
 				if cc, ok := p.(*ast.CaseClause); ok {
 					for _, e := range cc.List {
-						if id, ok := unparen(e).(*ast.Ident); ok && id.Name == "forStmt7" {
+						if id, ok := unparen(e).(*ast.Ident); ok && id.Name == kind {
 							okBack = true
 							where = ic.pos(b.as.Pos())
 						}
@@ -454,8 +509,8 @@ func c01R3(ic *IC, r *Report) {
 				}
 			}
 		}
-		r.Check(okBack, "R01.3", "cfg/forStmt7/copy-back-before-post", ic.pos(cfgFn.Decl.Pos()), "the loop variable takes the value of the body's per-iteration copy before the post statement ("+where+")",
-			"cfg gives the body of `for i := ...; cond; post` a per-iteration copy of the loop variable but installs no generator that copies the value back before the post statement: assignments to the loop variable made by the body (if skip { i++ }, i += 2) are lost, the post statement works on the stale value")
+		r.Check(okBack, "R01.3", "cfg/"+kind+"/copy-back-before-post", ic.pos(cfgFn.Decl.Pos()), "the loop variables take the value of the body's per-iteration copies at the end of the body ("+where+")",
+			"the "+kind+" case of cfg installs no generator copying the per-iteration copies of the loop variables back at the end of the body (this kind of for statement has an init clause, so since go1.22 each iteration has its own copy of the variables it defines): either the body does not work on a copy at all, and closures created in different iterations share one variable (for i := 0; ; i++ { fs = append(fs, func() int { return i }) } yields 3 3 3), or assignments made by the body are lost")
 	}
 	walk := ic.F["node.Walk"]
 	reachesWalk := func(e ast.Node) string {
